@@ -438,7 +438,7 @@ Section Core.
     match ct st with
     | TAdd =>
       do st <- advance st;
-      do r <- expr (precedence TAdd) st; let '(c, st) := r in Ok (NAssertNumber c, st)
+      do r <- expr (precedence TMultiply) st; let '(c, st) := r in Ok (NAssertNumber c, st)
     | TArrayWildcard =>
       do st <- advance st;
       do r <- projection projection_precedence st; let '(c, st) := r in
@@ -485,7 +485,7 @@ Section Core.
       do st <- advance st; Ok (n, st)
     | TSubtract =>
       do st <- advance st;
-      do r <- expr (precedence TSubtract) st; let '(c, st) := r in Ok (NNegate c, st)
+      do r <- expr (precedence TMultiply) st; let '(c, st) := r in Ok (NNegate c, st)
     | TUnquotedIdentifier =>
       if is (nt st) TOpenParen then function st
       else let n := NField (tval (curr st)) in do st <- advance st; Ok (n, st)
